@@ -1,8 +1,9 @@
 (* C11 - batch results align with inputs and do not depend on batch history.  Property theorems only. *)
 From Coq Require Import List ZArith Bool Arith.
 Import ListNotations.
-Require Import Cat CatFacts Tree GramPrims AStar Glue GlueProofs GlueMemo.
+Require Import Cat CatFacts Tree GramPrims AStar AStarImpl AStarEquiv AStarEquivTables Glue GlueProofs GlueMemo GlueMemoProofs.
 
+(* ---------- (a) chunking and collection (parsing.py) ---------- *)
 (* contiguous chunks: concatenating the chunks gives the batch back, whatever the number of worker processes *)
 Theorem C11_chunks_concat : forall (A : Type) (l : list A) k, concat (chunks l k) = l.
 Proof. intros A l k. apply chunks_concat. Qed.
@@ -15,3 +16,180 @@ Proof. intros A l k c. apply chunks_nonempty. Qed.
 Theorem C11_collect_in_order : forall (A B : Type) (parse : A -> B) (batch : list A) k,
   concat (map (map parse) (chunks batch k)) = map parse batch.
 Proof. intros A B parse batch k. apply collect_in_order. Qed.
+
+(* ---------- (b) the memo layer: category table + rule cache (parsing.pyx, parsing.h) ---------- *)
+(* every lookup (hit or miss) preserves coherence; the old table is a prefix of the new one; earlier ids keep their
+   meaning; the vector handed to the search is sound for its key *)
+Theorem C11_memo_step_coherent : forall gbin gun o st e st', coherent gbin gun st -> memo_step gbin gun o st = Some (e, st') ->
+  coherent gbin gun st' /\ (exists u, mtable st' = mtable st ++ u) /\
+  (forall j x, nth_error (mtable st) j = Some x -> nth_error (mtable st') j = Some x) /\
+  entry_ok gbin gun (mtable st') (key_of o) e.
+Proof. exact memo_step_coherent. Qed.
+
+(* for every sequence of lookups from the start of a call (input category list without duplicates, roots interned, empty
+   cache): the state is coherent, the input list is a prefix of the table, lexical ids are the input positions *)
+Theorem C11_memo_ops_coherent : forall gbin gun cats roots os st, NoDup cats ->
+  memo_ops gbin gun os (init_state cats roots) = Some st ->
+  coherent gbin gun st /\ (exists u, mtable st = cats ++ u) /\
+  (forall j x, nth_error cats j = Some x -> nth_error (mtable st) j = Some x).
+Proof. exact memo_ops_coherent. Qed.
+
+(* ids handed out earlier keep their meaning and no category ever has two ids *)
+Theorem C11_ids_never_reassigned : forall gbin gun os st st', coherent gbin gun st -> memo_ops gbin gun os st = Some st' ->
+  (forall j x, nth_error (mtable st) j = Some x -> nth_error (mtable st') j = Some x) /\
+  (forall i j x, nth_error (mtable st') i = Some x -> nth_error (mtable st') j = Some x -> i = j).
+Proof. exact ids_never_reassigned. Qed.
+
+(* the id of a lexical category is its position in the input list, after any history (this is what orders equal tag
+   scores in parse_sentence's per-token queue) *)
+Theorem C11_lexical_ids_are_positions : forall gbin gun cats roots os st j x, NoDup cats ->
+  memo_ops gbin gun os (init_state cats roots) = Some st -> nth_error cats j = Some x ->
+  nth_error (mtable st) j = Some x /\ forall i, nth_error (mtable st) i = Some x -> i = j.
+Proof. exact lexical_ids_are_positions. Qed.
+
+(* transparency: in every state reachable from the start of a call, the answer of any lookup, with its ids read back
+   through the table, is the grammar's answer for the categories the argument ids name - no trace of earlier lookups *)
+Theorem C11_memo_transparent : forall gbin gun cats roots os st o e st', NoDup cats ->
+  memo_ops gbin gun os (init_state cats roots) = Some st -> memo_step gbin gun o st = Some (e, st') ->
+  exists rs, op_cats gbin gun (mtable st) o = Some rs /\ decode (mtable st') e = Some rs.
+Proof. exact memo_transparent. Qed.
+
+(* two histories (two tables, possibly different ids for the same categories): equal decoded answers *)
+Theorem C11_memo_history_independent : forall gbin gun st1 st2 o1 o2 e1 e2 st1' st2',
+  coherent gbin gun st1 -> coherent gbin gun st2 -> op_cats gbin gun (mtable st1) o1 = op_cats gbin gun (mtable st2) o2 ->
+  memo_step gbin gun o1 st1 = Some (e1, st1') -> memo_step gbin gun o2 st2 = Some (e2, st2') ->
+  decode (mtable st1') e1 = decode (mtable st2') e2.
+Proof. exact memo_history_independent. Qed.
+
+(* a cached vector never changes: retrieve_tree later reads the labels the search saw *)
+Theorem C11_cached_answer_stable : forall gbin gun o os st e st1 st2, memo_step gbin gun o st = Some (e, st1) ->
+  memo_ops gbin gun os st1 = Some st2 -> cache_find (key_of o) (mcache st2) = Some e.
+Proof. exact cached_answer_stable. Qed.
+
+(* a lookup on ids of the table cannot fail (no IndexError) *)
+Theorem C11_memo_step_total : forall gbin gun o st,
+  (match o with OBin x y => x < length (mtable st) /\ y < length (mtable st) | OUn x => x < length (mtable st) end) ->
+  exists e st', memo_step gbin gun o st = Some (e, st').
+Proof. exact memo_step_total. Qed.
+
+(* ---------- (c) the search does not depend on which ids the categories have (parsing.h) ---------- *)
+(* Two runs of the implementation-level search whose category handles are related by R ("name the same category"):
+   if equality tests, root tests, admitted tags with their scores and the rule results (position-wise, head flags equal)
+   agree on related handles, then a finished run of one is matched by a finished run of the other with the same status
+   and position-wise related results: same shape, same rule indices, same head flags, related categories at every node,
+   all scores equal.  (Forall2-based version; the relation need not be a function.) *)
+Theorem C11_search_independent_of_ids : forall (C C' : Type) (ceqb : C -> C -> bool) (ceqb' : C' -> C' -> bool) n
+    (tag : nat -> C -> Z) (tag' : nat -> C' -> Z) dep (adm : nat -> list C) (adm' : nat -> list C') besttag bestdep
+    (bin : C -> C -> list (C * bool)) (bin' : C' -> C' -> list (C' * bool)) (un : C -> list C) (un' : C' -> list C')
+    (isroot : C -> bool) (isroot' : C' -> bool) pen dedup max_step nbest (R : C -> C' -> Prop),
+  (forall a a' b b', R a a' -> R b b' -> ceqb a b = ceqb' a' b') ->
+  (forall a a' b b', R a a' -> R b b' -> Forall2 (fun p q => R (fst p) (fst q) /\ snd p = snd q) (bin a b) (bin' a' b')) ->
+  (forall a a', R a a' -> Forall2 R (un a) (un' a')) ->
+  (forall a a', R a a' -> isroot a = isroot' a') ->
+  (forall i, Forall2 (fun c c' => R c c' /\ tag i c = tag' i c') (adm i) (adm' i)) ->
+  forall st, jreach ceqb n tag dep adm besttag bestdep bin un isroot pen dedup max_step nbest st ->
+  ~ jrunning max_step nbest st ->
+  exists st', jreach ceqb' n tag' dep adm' besttag bestdep bin' un' isroot' pen dedup max_step nbest st' /\
+              ~ jrunning max_step nbest st' /\ jstatus st = jstatus st' /\
+              Forall2 (irel R) (jresult st) (jresult st').
+Proof. exact @search_simulation. Qed.
+
+(* the simulation, state by state: every reachable state has a related reachable state (agenda, chart, goal related
+   position-wise, same step count) *)
+Theorem C11_search_states_related : forall (C C' : Type) (ceqb : C -> C -> bool) (ceqb' : C' -> C' -> bool) n
+    (tag : nat -> C -> Z) (tag' : nat -> C' -> Z) dep (adm : nat -> list C) (adm' : nat -> list C') besttag bestdep
+    (bin : C -> C -> list (C * bool)) (bin' : C' -> C' -> list (C' * bool)) (un : C -> list C) (un' : C' -> list C')
+    (isroot : C -> bool) (isroot' : C' -> bool) pen dedup max_step nbest (R : C -> C' -> Prop),
+  (forall a a' b b', R a a' -> R b b' -> ceqb a b = ceqb' a' b') ->
+  (forall a a' b b', R a a' -> R b b' -> Forall2 (fun p q => R (fst p) (fst q) /\ snd p = snd q) (bin a b) (bin' a' b')) ->
+  (forall a a', R a a' -> Forall2 R (un a) (un' a')) ->
+  (forall a a', R a a' -> isroot a = isroot' a') ->
+  (forall i, Forall2 (fun c c' => R c c' /\ tag i c = tag' i c') (adm i) (adm' i)) ->
+  forall st, jreach ceqb n tag dep adm besttag bestdep bin un isroot pen dedup max_step nbest st ->
+  exists st', jreach ceqb' n tag' dep adm' besttag bestdep bin' un' isroot' pen dedup max_step nbest st' /\ srel R st st'.
+Proof. exact @equiv_reach. Qed.
+
+(* related results decode to the same derivation: when R is "f x = y" (ids read through a table), the related result
+   list is the image of the result list *)
+Theorem C11_related_results_decode_equal : forall (C C' : Type) (f : C -> C') (l : list (@jitem C)) (l' : list (@jitem C')),
+  Forall2 (irel (fun x y => f x = y)) l l' <-> l' = map (jmap f) l.
+Proof. exact @F2_irel_fun. Qed.
+
+(* the relation between ids under two duplicate-free tables is bi-unique: the id comparisons of the search agree *)
+Theorem C11_table_ids_are_biunique : forall t1 t2, NoDup t1 -> NoDup t2 ->
+  forall a a' b b', same_cat t1 t2 a a' -> same_cat t1 t2 b b' -> Nat.eqb a b = Nat.eqb a' b'.
+Proof. exact same_cat_eqb. Qed.
+
+(* ... and between ids and the categories they name *)
+Theorem C11_ids_compare_like_categories : forall t, NoDup t ->
+  forall i c j d, names t i c -> names t j d -> Nat.eqb i j = cat_eqb c d.
+Proof. exact names_eqb. Qed.
+
+(* a sound cache entry, as parse_sentence reads it (result id, head flag), is position-wise related to the grammar's
+   answer on the categories (result category, head flag): the rule-result hypothesis of the simulation *)
+Theorem C11_cached_entries_relate_ids_to_categories : forall gbin gun t k e, entry_ok gbin gun t k e ->
+  exists rs, key_cats gbin gun t k = Some rs /\
+             Forall2 (fun p q => names t (fst p) (fst q) /\ snd p = snd q) (id_view e) (cat_view rs).
+Proof. exact entry_view_related. Qed.
+
+(* ---------- (d) the per-sentence loop of run: alignment and locality of failures ---------- *)
+Theorem C11_results_align : forall gbin gun (S R : Type) slen (placeholder : R) search max_length (sents : list S) st rs st',
+  run_loop gbin gun S R slen placeholder search max_length sents st = Some (rs, st') -> length rs = length sents.
+Proof. exact results_align. Qed.
+
+(* one result per sentence, in order; too long or status 1 => exactly [placeholder]; every sentence - also the one after
+   a failure - starts from a coherent memo state, and the state after the batch is coherent *)
+Theorem C11_failure_is_local : forall gbin gun (S R : Type) slen (placeholder : R) search max_length (sents : list S) st rs st',
+  coherent gbin gun st -> run_loop gbin gun S R slen placeholder search max_length sents st = Some (rs, st') ->
+  coherent gbin gun st' /\
+  Forall2 (fun s r => exists sti, coherent gbin gun sti /\
+                      r = sentence_result S R slen placeholder search max_length s sti /\
+                      (max_length < slen s -> r = [placeholder]) /\
+                      (snd (search s sti) = None -> r = [placeholder])) sents rs.
+Proof. exact failure_is_local. Qed.
+
+(* composition, conditional: IF a sentence's decoded outcome is the same from every coherent memo state (which is what
+   C11_search_independent_of_ids with C11_memo_transparent say about the search; the premise is kept explicit because
+   the search inside run_loop is abstract), THEN the batch result is sentence by sentence the result of parsing alone *)
+Theorem C11_batch_equals_alone_if_search_is_state_independent :
+  forall gbin gun (S R : Type) slen (placeholder : R) search max_length (sents : list S) st0 st rs st',
+  (forall s st1 st2, coherent gbin gun st1 -> coherent gbin gun st2 -> snd (search s st1) = snd (search s st2)) ->
+  coherent gbin gun st0 -> coherent gbin gun st ->
+  run_loop gbin gun S R slen placeholder search max_length sents st = Some (rs, st') ->
+  rs = map (fun s => sentence_result S R slen placeholder search max_length s st0) sents.
+Proof. exact batch_equals_alone. Qed.
+
+(* ---------- the hypotheses are satisfiable by non-trivial values ---------- *)
+(* the same toy grammar under two different id assignments satisfies every hypothesis of the simulation, so each
+   finished run under one assignment has its twin under the other *)
+Example ex_c11_simulation : forall st,
+  jreach Nat.eqb 2 ex_tag1 (fun _ _ => 0%Z) ex_adm1 (fun _ => 0%Z) (fun _ => 0%Z) ex_bin1 ex_un1 ex_root1 1%Z true 100 1 st ->
+  ~ jrunning 100 1 st ->
+  exists st', jreach Nat.eqb 2 ex_tag2 (fun _ _ => 0%Z) ex_adm2 (fun _ => 0%Z) (fun _ => 0%Z) ex_bin2 ex_un2 ex_root2 1%Z true 100 1 st' /\
+              ~ jrunning 100 1 st' /\ jstatus st = jstatus st' /\ Forall2 (irel ex_R) (jresult st) (jresult st').
+Proof.
+  apply (C11_search_independent_of_ids nat nat Nat.eqb Nat.eqb 2 ex_tag1 ex_tag2 _ ex_adm1 ex_adm2 _ _ ex_bin1 ex_bin2 ex_un1 ex_un2
+           ex_root1 ex_root2 1%Z true 100 1 ex_R ex_R_eqb ex_R_bin ex_R_un ex_R_root ex_R_adm).
+Qed.
+
+(* a memo run: two lexical categories, a root outside the list, a grammar creating a new category; the second lookup of
+   the same pair is a hit; the table grew by the root and the new category; decoded answers are the grammar's *)
+Definition ex_A := Atom [65%N] FNone.
+Definition ex_B := Atom [66%N] FNone.
+Definition ex_S := Atom [83%N] FNone.
+Definition ex_AB := Fun ex_A [47%N] ex_B.
+Definition ex_mk c := {| rcat := c; op_string := [102%N]; op_symbol := [62%N]; head_is_left := true |}.
+Definition ex_gbin (x y : cat) : list cres := if cat_eqb x ex_A && cat_eqb y ex_B then [ex_mk ex_AB; ex_mk ex_A] else [].
+Definition ex_gun (x : cat) : list cres := if cat_eqb x ex_AB then [ex_mk ex_S] else [].
+Example ex_c11_memo :
+  match memo_ops ex_gbin ex_gun [OBin 0 1; OBin 0 1; OUn 3; OBin 1 0] (init_state [ex_A; ex_B] [ex_S]) with
+  | Some st => mtable st = [ex_A; ex_B; ex_S; ex_AB] /\ length (mcache st) = 3 /\
+               (match memo_step ex_gbin ex_gun (OBin 0 1) st with
+                | Some (e, st') => map fst e = [3; 0] /\ decode (mtable st') e = Some (ex_gbin ex_A ex_B)
+                | None => False end)
+  | None => False
+  end.
+Proof. vm_compute. repeat split; reflexivity. Qed.
+
+Example ex_c11_nodup : NoDup [ex_A; ex_B].
+Proof. repeat constructor; simpl; intuition discriminate. Qed.
